@@ -7,7 +7,12 @@ mechanism of an observed mismatch, never to accept one.
 
   §3.4.1.1  base string = METHOD(upper) & enc(base-string-URI) & enc(normalised parameters)
   §3.4.1.2  base string URI: scheme and host lower-cased, port dropped iff it is the
-            scheme's default (http:80, https:443), path as sent, no query/fragment
+            scheme's default (http:80, https:443), path as sent, no query/fragment.
+            "host" is the RFC 3986 host component: an IPv6 literal keeps its brackets
+            ("[::1]:8080" is what the Host header field carries, which §3.4.1.2 item 2
+            requires host and port to match); its hex digits are lower-cased with the host.
+            Not pinned: a port written with leading zeros or an empty port ("h:080", "h:") —
+            §3.4.1.2 neither asks for nor forbids numeric normalisation of the port text.
   §3.4.1.3.2 parameters: encode names and values, sort by encoded name (then encoded
             value) in ascending byte order, name=value joined by &
   §3.4.2    key = enc(client shared-secret) & enc(token shared-secret)
@@ -30,7 +35,7 @@ def enc(s) -> str:
     return "".join(chr(b) if b in _UNRESERVED else "%%%02X" % b for b in s)
 
 
-def base_string_uri(url: str, keep_default_port=False, drop_path_params=False) -> str:
+def base_string_uri(url: str, keep_default_port=False, drop_path_params=False, drop_ipv6_brackets=False) -> str:
     m = _URL_RE.match(url)
     if not m:
         raise ValueError("not an absolute http(s) URL: %r" % url)
@@ -39,6 +44,9 @@ def base_string_uri(url: str, keep_default_port=False, drop_path_params=False) -
         default = {"http": ":80", "https": ":443"}.get(scheme)
         if default and authority.endswith(default):
             authority = authority[: -len(default)]
+    if drop_ipv6_brackets and authority.startswith("["):
+        # deviation: authority rebuilt from SplitResult.hostname, which strips the brackets of an IP-literal
+        authority = authority[1:].replace("]", "", 1)
     if drop_path_params:
         # what urllib.parse.urlparse()[2] yields: ";params" of the last segment cut off
         last = path.rfind("/")
@@ -60,7 +68,8 @@ def normalized_parameters(params, raw_names=False) -> str:
 
 def signature_base_string(method, url, params, **variant) -> str:
     uri = base_string_uri(url, keep_default_port=variant.get("keep_default_port", False),
-                          drop_path_params=variant.get("drop_path_params", False))
+                          drop_path_params=variant.get("drop_path_params", False),
+                          drop_ipv6_brackets=variant.get("drop_ipv6_brackets", False))
     norm = normalized_parameters(params, raw_names=variant.get("raw_names", False))
     return "&".join([enc(method.upper()), enc(uri), enc(norm)])
 
